@@ -609,6 +609,33 @@ class Analysis:
             keys &= set(r)
         return [(i, j, max(r[(i, j)] for r in out)) for (i, j) in sorted(keys, key=str)]
 
+    def ctx_relations(self, z0, t):
+        """[(key, key, c)] over the callee's parameters -- key = i (integer argument i), ("len", i) (length of the slice /
+        string / Vec argument i refers to) or None (0) -- that the state z0 before the call entails."""
+        z = z0.copy()
+        z.close()
+        terms = []
+        for i, a in enumerate(t["args"], 1):
+            ty = self._ty_of_operand(a)
+            if ty in WIDTH:
+                la = self.lin(z, a, ty)
+                if la is not None:
+                    terms.append((i, la))
+            else:
+                lt = self.len_term(a)
+                if lt:
+                    terms.append((("len", i), (lt, 0)))
+        terms.append((None, (ZERO, 0)))
+        out = []
+        for ka, la in terms:
+            for kb, lb in terms:
+                if ka == kb:
+                    continue
+                d = z.get(la[0], lb[0])
+                if d is not None:
+                    out.append((ka, kb, d + la[1] - lb[1]))
+        return out
+
     def _find_position_sums(self):
         """{id(rvalue): operand of the container}: additions `k + p` where p is the payload of
         `<container>.iter().skip(k).position(..)` (or `.iter().position(..)`, then k is absent and the entry is keyed on
@@ -1994,6 +2021,17 @@ class Analysis:
                 common = summ.get(None) if set(summ) == {None} else _common(summ)
                 if common:
                     self._apply_summary(zz, common, amap, d)
+            # a private helper of the same file that returns an integer: analyse it from what this call site guarantees
+            hc = self.F.heads.get(callee) if (self.engine is not None and callee in self.F.heads) else None
+            if hc is not None and not place_proj(d) and b.locals[d["l"]] in WIDTH and hc.get("vis") not in ("pub",) and \
+                    hc.get("file") == b.file and hc.get("bkind") == "fn" and callee != b.path:
+                rel = self.ctx_relations(z, t)
+                if rel:
+                    cs = self.engine.summary_ctx(callee, rel)
+                    if cs:
+                        cm = cs.get(None) if set(cs) == {None} else _common(cs)
+                        if cm:
+                            self._apply_summary(zz, cm, self._arg_places(t), d)
             self._assume_after_call(zz, t)
             if post and not place_proj(d):
                 lt = self.len_term_of_place({"l": d["l"]})
@@ -2172,9 +2210,18 @@ class Analysis:
             else:
                 nm = self._register("_%d" % l, l, "_%d" % l, set(), b.locals[l] in UNSIGNED)
             entry.assign(nm, ZERO, v)
+        def _entry_term(k):
+            if k is None:
+                return ZERO
+            if isinstance(k, tuple) and k[0] == "len":
+                return self.len_term_of_place({"l": k[1], "p": [["*"]]})
+            return self._register("_%d" % k, k, "_%d" % k, set(), b.locals[k] in UNSIGNED)
         for x, y, c in self.entry_rel:
-            tx = ZERO if x is None else self._register("_%d" % x, x, "_%d" % x, set(), b.locals[x] in UNSIGNED)
-            ty = ZERO if y is None else self._register("_%d" % y, y, "_%d" % y, set(), b.locals[y] in UNSIGNED)
+            tx, ty = _entry_term(x), _entry_term(y)
+            if tx is None or ty is None:
+                continue
+            self._touch(entry, tx)
+            self._touch(entry, ty)
             entry.add(tx, ty, c)
         self.inv_roots = self._inv_roots()
         own = self.P.direct.get(b.path, {}) if self.P is not None else {}
@@ -2376,6 +2423,8 @@ class Analysis:
         out = {}
         for tag, z in per_tag.items():
             specs = {}
+            if "_0" in self.info and b.locals[0] in WIDTH:
+                specs["_0"] = ("m", 0, [], self.info["_0"]["unsigned"])       # a scalar return value
             for name, i in self.info.items():
                 base = i["base"]
                 pl = i.get("place")
@@ -2434,6 +2483,7 @@ class Engine:
     """Caches per-body analyses and callee summaries for one facts set."""
 
     def __init__(self, facts, program, len_alias=None, invariants=None, max_blocks=1500, preconditions=None, postconditions=None):
+        self.ctx_summ = {}
         self.pre = preconditions or {}     # callee path -> [(xspec, yspec, c)] assumed at entry, checked at every call site
         self.post = postconditions or {}   # callee path -> [arg index i]: len(returned Vec) >= argument i; checked at returns
         self.F = facts
@@ -2480,6 +2530,29 @@ class Engine:
         if not any(sm.values()):
             sm = None
         self.summ[path] = sm
+        return sm
+
+    def summary_ctx(self, path, rel):
+        """Summary of a callee analysed from an entry state that satisfies `rel` (what the caller's state entails about the
+        arguments at one call site): one level of context sensitivity for small private helpers."""
+        key = (path, tuple(sorted(rel, key=str)))
+        if key in self.ctx_summ:
+            return self.ctx_summ[key]
+        if path in self.busy or not self._summarizable(path):
+            return None
+        b = self.F.body(path)
+        if b is None or len(b.blocks) > 80:
+            self.ctx_summ[key] = None
+            return None
+        self.busy.add(path)
+        try:
+            a = Analysis(b, self.P, self.F, self.len_alias, engine=self, invariants=self.inv, entry_rel=list(rel))
+        finally:
+            self.busy.discard(path)
+        sm = None if a.gave_up else a.export_summary()
+        if sm is not None and not any(sm.values()):
+            sm = None
+        self.ctx_summ[key] = sm
         return sm
 
     def has_variant_summary(self, path):
